@@ -54,3 +54,29 @@ Theorem murphy_bin_identity (p obar : R) o : o <> [] ->
   rsum (map (fun x => (p - x) * (p - x)) o) =
   nR o * ((p - rmean o) * (p - rmean o)) - nR o * ((rmean o - obar) * (rmean o - obar)) + rsum (map (fun x => (obar - x) * (obar - x)) o).
 Proof. intros H. rewrite (murphy_within_bin p o H), (murphy_between_bins obar o H). ring. Qed.
+
+(* ---- the whole score: ANY grouping of the cases into groups that share one forecast value (the probability bins, when the
+   forecasts take one value per bin).  groups = list of (forecast value, observations of the group). ---------------------- *)
+Definition g_bs (g : R * list R) : R := rsum (map (fun x => (fst g - x) * (fst g - x)) (snd g)).
+Definition g_rel (g : R * list R) : R := nR (snd g) * ((fst g - rmean (snd g)) * (fst g - rmean (snd g))).
+Definition g_res (obar : R) (g : R * list R) : R := nR (snd g) * ((rmean (snd g) - obar) * (rmean (snd g) - obar)).
+Definition g_unc (obar : R) (g : R * list R) : R := rsum (map (fun x => (obar - x) * (obar - x)) (snd g)).
+
+Theorem murphy_decomposition (obar : R) (groups : list (R * list R)) :
+  (forall g, In g groups -> snd g <> []) ->
+  rsum (map g_bs groups) =
+  rsum (map g_rel groups) - rsum (map (g_res obar) groups) + rsum (map (g_unc obar) groups).
+Proof.
+  induction groups as [|g gs IH]; intros Hne; [unfold rsum; cbn; lra|].
+  cbn [map]. rewrite !rsum_cons. rewrite IH by (intros g' Hg'; apply Hne; right; exact Hg').
+  unfold g_bs, g_rel, g_res, g_unc. rewrite (murphy_bin_identity (fst g) obar (snd g)) by (apply Hne; left; reflexivity). lra.
+Qed.
+
+Lemma rsum_app_l (l1 l2 : list R) : rsum (l1 ++ l2) = rsum l1 + rsum l2.
+Proof. induction l1 as [|x l IH]; [unfold rsum; cbn; lra|]. cbn [app]. rewrite !rsum_cons, IH. lra. Qed.
+(* the uncertainty term does not depend on the grouping: it is the sum over all observations *)
+Lemma g_unc_concat (obar : R) (groups : list (R * list R)) :
+  rsum (map (g_unc obar) groups) = rsum (map (fun x => (obar - x) * (obar - x)) (concat (map snd groups))).
+Proof.
+  induction groups as [|g gs IH]; [reflexivity|]. cbn [map concat]. rewrite rsum_cons, map_app, rsum_app_l, IH. reflexivity.
+Qed.
